@@ -4,7 +4,8 @@ from __future__ import annotations
 import ast
 
 from ..cfg import cfg_of, T as TRUE, F as FALSE
-from ..dataflow import derives, rd_of
+from ..dataflow import derives, rd_of, resolve_local, return_values, expand_locals
+from .common_guard import raise_facts, path_facts, facts
 from ..loader import dotted, walk_no_nested
 from . import common_backend as B
 from . import common_gauss as G
@@ -138,9 +139,8 @@ def validation(ctx):
            line=app[0].lineno)
     # locked guard
     lock_ok = False
-    for n in cfg.nodes:
-        if n.kind == "if" and "locked" in ast.unparse(n.ast) and cfg.ends_in_raise(n.id, TRUE) \
-                and cfg.dominates(n.id, app_node):
+    for n, exc, fs in raise_facts(f):
+        if cfg.dominates(n.id, app_node) and any(truth and "locked" in ast.unparse(a) for a, truth in fs):
             lock_ok = True
     ctx.ob(rule, f.site, lock_ok, "" if lock_ok else "no raising `locked` guard dominates the append",
            role="guard:locked", line=f.node.lineno)
@@ -156,34 +156,33 @@ def validation(ctx):
     feats = {"unknown-regref": False, "inconsistent": False, "bad-type": False, "inactive": False,
              "duplicate": False, "unknown-index": False}
     dominating = {"inactive": False, "duplicate": False}
-    for n in cfgg.nodes:
-        if n.kind != "if":
-            continue
-        txt = ast.unparse(n.ast)
-        raising_t = cfgg.ends_in_raise(n.id, TRUE)
-        raising_f = cfgg.ends_in_raise(n.id, FALSE)
-        test = n.ast
-        if raising_t and isinstance(test, ast.Compare) and isinstance(test.ops[0], ast.NotIn) and "reg_refs" in txt:
-            feats["unknown-regref"] = True
-        if raising_t and isinstance(test, ast.Compare) and isinstance(test.ops[0], ast.IsNot) and "reg_refs" in txt:
-            feats["inconsistent"] = True
-        if raising_t and isinstance(test, ast.UnaryOp) and isinstance(test.op, ast.Not) and \
-                isinstance(test.operand, ast.Attribute) and test.operand.attr == "active":
-            feats["inactive"] = True
-            dominating["inactive"] = cfgg.dominates(n.id, acc_node)
-        if raising_t and isinstance(test, ast.Compare) and isinstance(test.ops[0], ast.In) and \
-                dotted(test.comparators[0]) == acc_list:
-            feats["duplicate"] = True
-            dominating["duplicate"] = cfgg.dominates(n.id, acc_node)
-        if raising_f and "isinstance" in txt:
-            feats["bad-type"] = True
+    for n, exc, fs in raise_facts(g):
+        for a, truth in fs:
+            txt = ast.unparse(a)
+            if isinstance(a, ast.Compare) and isinstance(a.ops[0], ast.In) and "reg_refs" in txt and not truth:
+                feats["unknown-regref"] = True
+            if isinstance(a, ast.Compare) and isinstance(a.ops[0], ast.Is) and "reg_refs" in txt and not truth:
+                feats["inconsistent"] = True
+            if isinstance(a, ast.Attribute) and a.attr == "active" and not truth:
+                feats["inactive"] = True
+                dominating["inactive"] = dominating["inactive"] or cfgg.dominates(n.id, acc_node)
+            if isinstance(a, ast.Compare) and isinstance(a.ops[0], ast.In) and dotted(a.comparators[0]) == acc_list and truth:
+                feats["duplicate"] = True
+                dominating["duplicate"] = dominating["duplicate"] or cfgg.dominates(n.id, acc_node)
+    # bad type: some raise is reached only when every isinstance test on the element failed
+    for nd in cfgg.nodes:
+        if nd.kind == "stmt" and isinstance(nd.ast, ast.Raise):
+            pf = path_facts(cfgg, nd.id)
+            iso = [truth for a, truth in pf if isinstance(a, ast.Call) and dotted(a.func) == "isinstance"]
+            if iso and not any(iso):
+                feats["bad-type"] = True
     # unknown index: delegated to _index_to_regref (or inline)
     h = t.func_opt(PROG, "Program._index_to_regref")
     if h is not None and _calls_in(g.node, "self._index_to_regref"):
         ch = cfg_of(h.node)
-        for n in ch.nodes:
-            if n.kind == "if" and isinstance(n.ast, ast.Compare) and isinstance(n.ast.ops[0], ast.NotIn) and \
-                    "reg_refs" in ast.unparse(n.ast) and ch.ends_in_raise(n.id, TRUE):
+        for n, exc, fs in raise_facts(h):
+            if any(isinstance(a, ast.Compare) and isinstance(a.ops[0], ast.In) and "reg_refs" in ast.unparse(a) and not truth
+                   for a, truth in fs):
                 feats["unknown-index"] = True
     for k, v in feats.items():
         ctx.ob(rule, g.site, v, "" if v else f"_test_regrefs lost its raising guard for the case '{k}'",
@@ -209,12 +208,12 @@ def validation(ctx):
     ctx.require(runs, "BaseEngine._run no longer calls self._run_program")
     run_node = cfr.node_of_expr(runs[0])[0]
     gates = []
+    for n, exc, fs in raise_facts(r):
+        # raises when p.can_follow(prev) is false
+        if any(not truth and isinstance(a, ast.Call) and isinstance(a.func, ast.Attribute) and a.func.attr == "can_follow"
+               for a, truth in fs):
+            gates.append(n.id)
     for n in cfr.nodes:
-        if n.kind == "if" and "can_follow" in ast.unparse(n.ast):
-            # `if not p.can_follow(prev): raise`
-            neg = isinstance(n.ast, ast.UnaryOp) and isinstance(n.ast.op, ast.Not)
-            if (neg and cfr.ends_in_raise(n.id, TRUE)) or (not neg and cfr.ends_in_raise(n.id, FALSE)):
-                gates.append(n.id)
         if n.kind == "stmt" and n.ast is not None and _calls_in(n.ast, "self._init_backend"):
             gates.append(n.id)
     loop = [n.id for n in cfr.nodes if n.kind == "for" and run_node in cfr.reachable([n.id], exc=False)]
@@ -228,10 +227,9 @@ def validation(ctx):
     ctx.ob(rule, r.site, ok, "" if ok else "a program segment can reach _run_program without either initialising "
            "the backend or passing the raising can_follow(prev) check", role="gate:can_follow", line=runs[0].lineno)
     cf = t.func(PROG, "Program.can_follow")
-    rets = [n for n in walk_no_nested(cf.node) if isinstance(n, ast.Return) and n.value is not None]
     ok = False
-    for rt in rets:
-        v = rt.value
+    for rt, v in return_values(cf.node):
+        v = expand_locals(cf.node, v)
         if isinstance(v, ast.Compare) and len(v.ops) == 1 and isinstance(v.ops[0], ast.Eq):
             sides = {dotted(v.left), dotted(v.comparators[0])}
             prev = cf.pos_params[1]
@@ -245,14 +243,17 @@ def remap_guard(ctx):
     rule = "C08.remap"
     f = ctx.tree.func("backends/fockbackend/backend.py", "FockBackend._remap_modes")
     cfg = cfg_of(f.node)
-    ok = False
-    for n in cfg.nodes:
-        if n.kind == "if" and cfg.ends_in_raise(n.id, TRUE):
-            txt = ast.unparse(n.ast)
-            has_none = any(isinstance(c, ast.Compare) and isinstance(c.ops[0], ast.In) and
-                           isinstance(c.left, ast.Constant) and c.left.value is None for c in ast.walk(n.ast))
-            if has_none and "valid" in txt and isinstance(n.ast, ast.BoolOp) and isinstance(n.ast.op, ast.Or):
-                ok = True
+    # some raise is taken whenever `None in <mapped>` holds, and some raise whenever `valid(modes)` fails
+    none_g = valid_g = False
+    for n, exc, fs in raise_facts(f):
+        for a, truth in fs:
+            a = expand_locals(f.node, a)
+            if truth and isinstance(a, ast.Compare) and isinstance(a.ops[0], ast.In) and isinstance(a.left, ast.Constant) \
+                    and a.left.value is None:
+                none_g = True
+            if not truth and isinstance(a, ast.Call) and isinstance(a.func, ast.Attribute) and a.func.attr == "valid":
+                valid_g = True
+    ok = none_g and valid_g
     ctx.ob(rule, f.site, ok, "" if ok else "_remap_modes no longer raises when a mode is out of range or maps to None "
            "(deleted)", role="guard:deleted-or-invalid", line=f.node.lineno)
     rets = [n for n in walk_no_nested(f.node) if isinstance(n, ast.Return) and n.value is not None]
